@@ -271,7 +271,55 @@ func condAtoms(cond ssa.Value, outcome bool, depth int) []edgeFact {
 	}
 	out := []edgeFact{{c, outcome}}
 	phi, ok := c.(*ssa.Phi)
-	if !ok || len(phi.Edges) != 2 || depth > 4 {
+	if !ok || depth > 4 {
+		return out
+	}
+	if len(phi.Edges) > 2 {
+		// a && b && c … (every edge but one the constant false) known true, or
+		// a || b || c … (every edge but one the constant true) known false: the value came
+		// in over the one computed edge, whose block lies behind the other operands
+		nonConst := -1
+		allK := true
+		want := !outcome // the constant on the short-circuit edges
+		for i, e := range phi.Edges {
+			k, isK := boolConst(e)
+			if !isK {
+				if nonConst >= 0 {
+					allK = false
+				}
+				nonConst = i
+				continue
+			}
+			if k != want {
+				allK = false
+			}
+		}
+		if !allK || nonConst < 0 {
+			return out
+		}
+		q := phi.Block().Preds[nonConst]
+		out = append(out, condAtoms(phi.Edges[nonConst], outcome, depth+1)...)
+		for i := range phi.Edges {
+			if i == nonConst {
+				continue
+			}
+			p := phi.Block().Preds[i]
+			piff, ok := p.Instrs[len(p.Instrs)-1].(*ssa.If)
+			if !ok {
+				continue
+			}
+			for si, sx := range p.Succs {
+				if sx == phi.Block() {
+					continue
+				}
+				if sx == q || edgeDominates(p, si, q) {
+					out = append(out, condAtoms(piff.Cond, si == 0, depth+1)...)
+				}
+			}
+		}
+		return out
+	}
+	if len(phi.Edges) != 2 {
 		return out
 	}
 	for i, e := range phi.Edges {
